@@ -179,8 +179,12 @@ class Interp(MiniEval):
         except Exception:  # noqa: BLE001
             pass
         node = self.inv.folder.env_nodes[mod.name].get(name)
-        if node is not None and isinstance(node, ast.Call) and isinstance(node.func, ast.Attribute) \
-                and node.func.attr == 'process_selectors':
+        is_selconst = False
+        if node is not None and mod.name == 'css_parser' and not self.shared.get('no_const_shortcut') \
+                and any(isinstance(c, ast.Call) for c in ast.walk(node)):
+            from .props.sem import selector_constants
+            is_selconst = name in selector_constants(self.ctx)
+        if is_selconst:
             # a selector list compiled at import time: an opaque constant identified by its name
             key = ('const', mod.name, name)
             if key not in self.shared:
@@ -936,7 +940,20 @@ def call_function(ctx, qual: str, args=(), kwargs=None, stubs=None, self_obj=Non
     cls = parts[1] if len(parts) == 3 else None
     shared = {'steps': 0}
     shared.update(options or {})
-    it = Interp(ctx, mod.name, cls, {}, stubs or {}, shared=shared)
+    stubs = dict(stubs or {})
+    # a stub given by the spelling `self.<method>` also answers the same method reached through any other spelling (another
+    # receiver name, a bound method kept in a table, a lambda parameter): alias it to the qualified name of the method
+    scls = object.__getattribute__(self_obj, '_cls') if isinstance(self_obj, Obj) else (f'{mod.name}.{cls}' if cls else None)
+    if scls:
+        for k in list(stubs):
+            if k.startswith('self.') and k.count('.') == 1:
+                name = k[5:]
+                for c in ctx.src.mro(scls):
+                    mn_, _, cn_ = c.partition('.')
+                    if mn_ in ctx.src.mods and f'{cn_}.{name}' in ctx.src.mods[mn_].functions:
+                        stubs.setdefault(f'{mn_}.{cn_}.{name}', stubs[k])
+                        break
+    it = Interp(ctx, mod.name, cls, {}, stubs, shared=shared)
     try:
         return it.run_function(mod, fn, cls, list(args), dict(kwargs or {}), self_obj)
     finally:
